@@ -385,7 +385,7 @@ func runUFCase(i int, schema *graphql.Schema) *ufResult {
 			res.Outcomes = append(res.Outcomes, target+":PANIC")
 		case callHung:
 			res.Hangs = append(res.Hangs, target)
-			res.Stacks = append(res.Stacks, thunderStacks(nil)...)
+			res.Stacks = append(res.Stacks, hangStacks()...)
 			res.Outcomes = append(res.Outcomes, target+":HANG")
 		case callUndecided:
 			res.Undec = append(res.Undec, target)
@@ -492,7 +492,8 @@ func runUFCase(i int, schema *graphql.Schema) *ufResult {
 			}
 		}
 		waitFor := func(what string, cond func() bool) bool {
-			if vlib.WaitCond(func() bool { return cond() || isServed() }, wsAct, 2*time.Second, 15*time.Second) == vlib.Reached {
+			switch out, stacks := waitEntry(func() bool { return cond() || isServed() }, wsAct, "(*conn).ServeJSONSocket", 2*time.Second, 15*time.Second); out {
+			case waitReached:
 				if cond() {
 					return true
 				}
@@ -500,9 +501,12 @@ func runUFCase(i int, schema *graphql.Schema) *ufResult {
 					panic(inner) // ServeJSONSocket itself panicked (in a real server: on the connection's read loop, unrecovered)
 				}
 				res.WSBroken = append(res.WSBroken, "ServeJSONSocket returned before: "+what)
-				return false
+			case waitStuck:
+				res.WSBroken = append(res.WSBroken, "connection went quiet before: "+what)
+				res.Stacks = append(res.Stacks, stacks...)
+			default:
+				res.Undec = append(res.Undec, "ServeJSONSocket: "+what)
 			}
-			res.WSBroken = append(res.WSBroken, what)
 			return false
 		}
 		count := func(id, t string) int { _, c, _, _ := sock.fold(id); return c[t] }
@@ -525,12 +529,14 @@ func runUFCase(i int, schema *graphql.Schema) *ufResult {
 			ok = waitFor("a new subscription h2 delivers data", func() bool { return count("h2", "update") >= 1 })
 		}
 		closeOnce.Do(func() { close(sock.in) })
-		select {
-		case <-served:
-		case <-time.After(20 * time.Second):
+		switch out, stacks := waitEntry(isServed, wsAct, "(*conn).ServeJSONSocket", 2*time.Second, 15*time.Second); out {
+		case waitStuck:
 			res.WSBroken = append(res.WSBroken, "ServeJSONSocket did not return after the socket closed")
+			res.Stacks = append(res.Stacks, stacks...)
+		case waitNoVerdict:
+			res.Undec = append(res.Undec, "ServeJSONSocket: return after the socket closed")
 		}
-		if inner != nil {
+		if isServed() && inner != nil {
 			panic(inner)
 		}
 		sock.mu.Lock()
